@@ -70,6 +70,13 @@ def runCase (id : Str) (inp : Input) : IO Unit := do
         else if codeTokens t2 = codeTokens t then kv "gf" s%"eq-code"
         else do kv "gf" s%"diff"; kv "gftext" t2
     kv "imports" (Str.join s%";" (d.imports.map fun i => i.alias ++ s%" " ++ i.path))
+    -- C15, first clause, on the model: the second run of the same command loads the first output as
+    -- one more (last) file of the package, so it harvests the import names written there
+    let inp2 := { inp with fileImports := inp.fileImports ++
+                    d.imports.filterMap (fun i => if i.alias ≠ [] then some (i.path, i.alias) else none) }
+    kv "fixpoint" (bstr (match genData Ord.id fuel inp2 with
+      | .ok d2 => decide (renderNoop d2 = renderNoop d)
+      | .error _ => false))
     kv "pred.imports" (bstr (a.importsOK && sortedByPath d.imports))
     kv "pred.names" (bstr (a.namesOK inp.stub))
   let same := match r1, r2 with
